@@ -290,9 +290,9 @@ func (s *JSONDB) newFile(dagFile string, t time.Time, requestID string) (string,
 func (s *JSONDB) latestToday(dagFile string, day time.Time, latestStatusToday bool) (string, error) {
 	var pattern string
 	if latestStatusToday {
-		pattern = fmt.Sprintf("%s.%s*.*.dat", s.prefixWithDirectory(dagFile), day.Format(dateFormat))
+		pattern = fmt.Sprintf("%s.%s*.*.dat", s.globPrefix(dagFile), day.Format(dateFormat))
 	} else {
-		pattern = fmt.Sprintf("%s.*.*.dat", s.prefixWithDirectory(dagFile))
+		pattern = fmt.Sprintf("%s.*.*.dat", s.globPrefix(dagFile))
 	}
 	matches, err := filepath.Glob(pattern)
 	if err != nil || len(matches) == 0 {
@@ -314,8 +314,16 @@ func (s *JSONDB) latest(pattern string, n int) []string {
 }
 
 func (s *JSONDB) globPattern(dagFile string) string {
-	return s.prefixWithDirectory(dagFile) + "*" + extDat
+	return s.globPrefix(dagFile) + "*" + extDat
 }
+
+// globPrefix returns prefixWithDirectory with the glob metacharacters escaped,
+// so that a DAG name (or a directory) containing them matches only itself.
+func (s *JSONDB) globPrefix(dagFile string) string {
+	return globEscaper.Replace(s.prefixWithDirectory(dagFile))
+}
+
+var globEscaper = strings.NewReplacer(`\`, `\\`, `*`, `\*`, `?`, `\?`, `[`, `\[`)
 
 func (s *JSONDB) prefixWithDirectory(dagFile string) string {
 	p := prefix(dagFile)
